@@ -28,6 +28,8 @@ def scenarios(tier):
     for adv in ("EF", "RK2", "RK4"):
         for npart in ((1, 2) if tier == "quick" else (1, 2, 3)):
             out.append(dict(name=f"tracker-{adv}-p{npart}", fn="tracker", params=dict(adv=adv, npart=npart, shape=("square", "tall", "wide")[npart % 3]), cost=5))
+        # an inactive particle stored before an active one (per-particle arrays must stay aligned)
+        out.append(dict(name=f"tracker-{adv}-p2-inactive-first", fn="tracker", params=dict(adv=adv, npart=2, shape="square", inactive=[0]), cost=5))
         if tier == "quick":
             out.append(dict(name=f"tracker-{adv}-p1-wide", fn="tracker", params=dict(adv=adv, npart=1, shape="wide"), cost=5))
     for which in (1, 2, 4):
@@ -60,23 +62,28 @@ def order_conditions(a, b, c, order):
 class _RecForce:
     """forcing plug: stage velocities are given values; records what the tracker asks for"""
 
-    def __init__(self, W, npart, values):
+    def __init__(self, W, npart, values, active=None):
         self.W, self.npart, self.values = W, npart, values
+        self.active = list(range(npart)) if active is None else list(active)
         self.calls = []
         self.variables = {}
 
     def velocity(self, X, Y, Z, fractional_step=0, method="bilinear"):
         k = len(self.calls)
-        self.calls.append((self.W.tolist(X), self.W.tolist(Y), fractional_step))
+        # a tracker may ask for all particles or for the active ones only: answer in the order asked
+        who = list(range(self.npart)) if len(X) == self.npart else self.active
+        if len(X) != len(who):
+            raise AssertionError(f"velocity asked for {len(X)} positions; the state has {self.npart} particles, {len(self.active)} active")
+        self.calls.append((dict(zip(who, self.W.tolist(X))), dict(zip(who, self.W.tolist(Y))), fractional_step))
         u = self.values(k, "u")
         v = self.values(k, "v")
-        return self.W.arr(u, "f"), self.W.arr(v, "f")
+        return self.W.arr([u[n] for n in who], "f"), self.W.arr([v[n] for n in who], "f")
 
 
 SHAPES = dict(square=(0, 40, 0, 40), tall=(1, 40, 3, 90), wide=(3, 90, 1, 40))  # grid.xmin, xmax, ymin, ymax
 
 
-def _run_tracker(W, adv, npart, values, x, y, dx, dtsec, dy=None, shape="square"):
+def _run_tracker(W, adv, npart, values, x, y, dx, dtsec, dy=None, shape="square", inactive=()):
     dy = dx if dy is None else dy
     bx0, bx1, by0, by1 = SHAPES[shape]
     trk, st = W.load("ladim.tracker"), W.load("ladim.state")
@@ -101,7 +108,9 @@ def _run_tracker(W, adv, npart, values, x, y, dx, dtsec, dy=None, shape="square"
     timer.dt = _DtBox(W, dtsec)
     S = st.State()
     S.append(X=W.arr(list(x), "f"), Y=W.arr(list(y), "f"), Z=5)
-    F = _RecForce(W, npart, values)
+    for n in inactive:
+        S.active[n] = False
+    F = _RecForce(W, npart, values, active=[n for n in range(npart) if n not in inactive])
     T = trk.Tracker(advection=adv, modules=dict(state=S, grid=Grid(), forcing=F, time=timer))
     T.update()
     return S, F
@@ -138,7 +147,7 @@ def tracker(W, p):
             for c in "uv":
                 dd = dx[n] if c == "u" else dy[n]
                 W.assume(W.all([W.lt(U[(k, c, n)] * dt, dd), W.lt(-dd, U[(k, c, n)] * dt)]), "|U| dt / dx < 1")
-    S, F = _run_tracker(W, adv, npart, lambda k, c: [U[(k, c, n)] for n in range(npart)], x, y, dx, dt, dy, shape=p.get("shape", "square"))
+    S, F = _run_tracker(W, adv, npart, lambda k, c: [U[(k, c, n)] for n in range(npart)], x, y, dx, dt, dy, shape=p.get("shape", "square"), inactive=p.get("inactive", ()))
     W.prove(len(F.calls) == ns, "linear-in-stage-velocities", dict(calls=len(F.calls), expected=ns))
     if len(F.calls) != ns:
         return (adv, "calls")
@@ -149,6 +158,10 @@ def tracker(W, p):
     conds = []
     Xn, Yn = W.tolist(S.X), W.tolist(S.Y)
     for n in range(npart):
+        if n in p.get("inactive", ()):
+            # an inactive particle keeps its place; whether the tracker samples a velocity for it is its own business
+            conds += [W.eq(Xn[n], x[n]), W.eq(Yn[n], y[n])]
+            continue
         conds.append(W.eq(Xn[n], x[n] + dt / dx[n] * sum(_q(W, b[k]) * U[(k, "u", n)] for k in range(ns))))
         conds.append(W.eq(Yn[n], y[n] + dt / dy[n] * sum(_q(W, b[k]) * U[(k, "v", n)] for k in range(ns))))
         for k in range(ns):
